@@ -184,7 +184,7 @@ func (w *World) classifyRange(rs *ast.RangeStmt, stack []ast.Node, sc *Scope) st
 	return "other"
 }
 
-// collectsKeys: body is `xs = append(xs, key)` or `xs[i] = f(key); i++` (f a package-level
+// collectsKeys: body is `xs = append(xs, key)`, `xs = append(xs, f(key))` or `xs[i] = f(key); i++` (f a package-level
 // function, not a method of the keeper); the value variable is unused.  Returns xs.
 func (w *World) collectsKeys(rs *ast.RangeStmt, key string, sc *Scope) (string, bool) {
 	if rs.Value != nil && !isIdent(rs.Value, "_") {
@@ -202,7 +202,7 @@ func (w *World) collectsKeys(rs *ast.RangeStmt, key string, sc *Scope) (string, 
 		if xs == "" || !ok || !isIdent(c.Fun, "append") || len(c.Args) != 2 || c.Ellipsis.IsValid() {
 			return "", false
 		}
-		if !isIdent(c.Args[0], xs) || !isIdent(c.Args[1], key) {
+		if !isIdent(c.Args[0], xs) || !w.keyImage(c.Args[1], key, sc) {
 			return "", false
 		}
 		return xs, true
@@ -224,30 +224,35 @@ func (w *World) collectsKeys(rs *ast.RangeStmt, key string, sc *Scope) (string, 
 		if w.render(ix.X) == w.render(rs.X) {
 			return "", false
 		}
-		rhs := unparen(as.Rhs[0])
-		if isIdent(rhs, key) {
+		if w.keyImage(as.Rhs[0], key, sc) {
 			return xs, true
-		}
-		c, ok := rhs.(*ast.CallExpr)
-		if !ok || len(c.Args) != 1 || !isIdent(c.Args[0], key) {
-			return "", false
-		}
-		switch f := unparen(c.Fun).(type) {
-		case *ast.Ident:
-			if w.lookupLocal(sc, f.Name, f.Pos()) != nil {
-				return "", false
-			}
-			return xs, true
-		case *ast.SelectorExpr:
-			if id, ok := f.X.(*ast.Ident); ok {
-				if _, isImport := w.importOf(id, sc); isImport {
-					return xs, true
-				}
-			}
 		}
 		return "", false
 	}
 	return "", false
+}
+
+// keyImage: the key itself, or `f(key)` with f a package-level function (not a local, not a method)
+func (w *World) keyImage(e ast.Expr, key string, sc *Scope) bool {
+	rhs := unparen(e)
+	if isIdent(rhs, key) {
+		return true
+	}
+	c, ok := rhs.(*ast.CallExpr)
+	if !ok || len(c.Args) != 1 || !isIdent(c.Args[0], key) {
+		return false
+	}
+	switch f := unparen(c.Fun).(type) {
+	case *ast.Ident:
+		return w.lookupLocal(sc, f.Name, f.Pos()) == nil
+	case *ast.SelectorExpr:
+		if id, ok := f.X.(*ast.Ident); ok {
+			if _, isImport := w.importOf(id, sc); isImport {
+				return true
+			}
+		}
+	}
+	return false
 }
 
 // pointwiseWrites: every statement is `m[key] = expr` into a map other than the ranged
